@@ -432,6 +432,15 @@ func init() {
 				tIte(tEq(app("sat", src, "i!r"), tInt(int64(from))), tInt(int64(to)), app("sat", src, "i!r"))), app("sat", r, "i!r")))
 			return Sc{r, SStr}, st3
 		}
+		if okb && okd && constant.StringVal(cb) == "'" && constant.StringVal(cd) == "''" {
+			c.used["dq"] = true
+			return Sc{app("dq", a.(Sc).T), SStr}, st3
+		}
+		if okb && okd && constant.StringVal(cb) == "''" && constant.StringVal(cd) == "'" {
+			c.used["uq"] = true
+			c.used["dq"] = true
+			return Sc{app("uq", a.(Sc).T), SStr}, st3
+		}
 		c.declareFun("str!replaceAll", []string{SStr, SStr, SStr}, SStr)
 		return Sc{app("str!replaceAll", a.(Sc).T, b.(Sc).T, d.(Sc).T), SStr}, st3
 	})
